@@ -89,7 +89,12 @@ class ByteConst:
 
 class Raw:
     """Hand-written Verus text (models, spec functions, lemmas) emitted verbatim; part of the trusted/assumed prelude
-    unless it is a proof fn (which Verus checks)."""
+    unless it is a proof fn (which Verus checks).
+
+    Opt-in, set after construction (unit readerrd): `canary = dict(name=, text=, props=[..])` - for a hand-written exec function that
+    is verified (hand copy of a std default method): `text` is its vacuity copy `<name>__canary` with `false // [canary]` as last
+    ensures clause, emitted in the canary run only and required to FAIL there (build.generate)."""
+    canary = None
 
     def __init__(self, text):
         self.text = text
